@@ -3,7 +3,8 @@
 import json
 
 import stages
-from stages import calls, events_trace, generated_streams, guard, harness_calls, mc, product, streams, tla_set
+from stages import (apalache_inductive, calls, events_trace, generated_streams, guard, harness_calls, mc, product,
+                    streams, tla_set)
 from vlib import log
 
 ALLK = ["std", "lf", "ll"]
@@ -61,7 +62,7 @@ def c01(ck, thorough):
     mc(ck, "ACSearch", "c01_search", search_consts(kinds, [False], [False], [False], True),
        SEARCH_INV, ["PositionMonotone"])
     mc(ck, "ACIter", "c01_iter", iter_consts(kinds, [False], thorough), ITER_INV, ["Progress"])
-    fams = ["f23", "rand:%d:10:6" % (400 if thorough else 60)] + (["f33"] if thorough else [])
+    fams = ["f23", "chains", "rand:%d:10:6" % (400 if thorough else 60)] + (["f33"] if thorough else [])
     product(ck, "c01", fams, full=thorough, shards=4, mks=kinds)
     calls(ck, "c01_enum", "enum", scale=2 if thorough else 1, mks=kinds, an="no", flav="find,iter")
     calls(ck, "c01_rand", "rand", scale=10 if thorough else 2, mks=kinds, an="no", flav="find,iter")
@@ -77,7 +78,7 @@ def c02(ck, thorough):
     mc(ck, "ACSearch", "c02_search", search_consts(kinds, [False], [False], [False], True),
        SEARCH_INV, ["PositionMonotone"])
     mc(ck, "ACIter", "c02_iter", iter_consts(kinds, [False], True), ITER_INV, ["Progress"])
-    fams = ["f23", "rand:%d:10:6" % (400 if thorough else 60)] + (["f33"] if thorough else [])
+    fams = ["f23", "chains", "rand:%d:10:6" % (400 if thorough else 60)] + (["f33"] if thorough else [])
     product(ck, "c02", fams, full=thorough, shards=4, mks=kinds)
     calls(ck, "c02_enum", "enum", scale=2, mks=kinds, an="no", flav="find,iter")
     calls(ck, "c02_rand", "rand", scale=10 if thorough else 2, mks=kinds, an="no", flav="find,iter")
@@ -89,9 +90,11 @@ def c03(ck, thorough):
     mc(ck, "ACOverlap", "c03_overlap", overlap_consts([False], [False, True], thorough),
        ["OverlapCorrect", "StateSane"], view="View")
     fams = ["f23", "rand:%d:10:6" % (400 if thorough else 60)] + (["f33"] if thorough else [])
-    product(ck, "c03", fams + ["dups"], full=thorough, shards=4, mks=["std"])
+    product(ck, "c03", fams + ["dups", "chains"], full=thorough, shards=4, mks=["std"])
     calls(ck, "c03_enum", "enum", scale=2, mks=["std"], an="no", flav="overlap")
     calls(ck, "c03_rand", "rand", scale=10 if thorough else 2, mks=["std"], an="no", flav="overlap")
+    # every prefilter variant a standard searcher can carry, haystacks that lead back to the start state
+    calls(ck, "c03_pre", "prefilter", scale=3 if thorough else 1, mks=["std"], an="no", flav="overlap")
 
 
 def c04(ck, thorough):
@@ -175,6 +178,8 @@ def c06(ck, thorough):
 def c07(ck, thorough):
     """stream search = in-memory search for every read schedule and capacity"""
     mc(ck, "ACStream", "c07_stream", stream_consts(thorough, False), STREAM_INV)
+    # the buffer / chunk index arithmetic for EVERY capacity and pattern length (inductive invariant)
+    apalache_inductive(ck, "ACBufferIdx", "c07_idx")
     generated_streams(ck, "c07_gen", maxstream=4 if thorough else 3, faults=False)
     streams(ck, "c07_enum", "enum", maxstream=5 if thorough else 4, sizes="1,2,3")
     streams(ck, "c07_rand", "rand", scale=12 if thorough else 2)
@@ -183,6 +188,7 @@ def c07(ck, thorough):
 def c08(ck, thorough):
     """stream replacement reproduces the stream outside matches"""
     mc(ck, "ACStream", "c08_stream", stream_consts(thorough, False), STREAM_INV)
+    apalache_inductive(ck, "ACBufferIdx", "c08_idx")
     generated_streams(ck, "c08_gen", maxstream=4 if thorough else 3, faults=False)
     streams(ck, "c08_enum", "enum", maxstream=5 if thorough else 4, sizes="1,2,4")
     streams(ck, "c08_rand", "rand", scale=12 if thorough else 2)
